@@ -413,7 +413,9 @@ impl HScenario {
                     }
                     let is_merge = matches!(op, HOp::Merge { .. });
                     let same = ms[*dst].same_edges(&ms[*src]);
-                    if same && ms[*dst].counts.iter().zip(ms[*src].counts.iter()).any(|(a, b)| a + b >= cap) {
+                    // keep the TOTAL count of every histogram below 2^62: the crate sums all bins
+                    // in u64 (variance), so larger totals are outside the explored domain
+                    if same && ms[*dst].total() + ms[*src].total() >= cap {
                         continue;
                     }
                     let src_h = hs[*src].boxed_clone();
@@ -486,7 +488,7 @@ impl HScenario {
                     if *node >= k {
                         continue;
                     }
-                    if ms[*node].counts.iter().any(|&c| c * (*f as u128) >= cap) {
+                    if ms[*node].total() * (*f as u128) >= cap {
                         continue;
                     }
                     hs[*node].mul_assign(*f);
@@ -566,7 +568,7 @@ impl HScenario {
                     if !(ms[*a].same_edges(&ms[*b]) && ms[*b].same_edges(&ms[*c])) {
                         continue;
                     }
-                    if (0..len).any(|i| ms[*a].counts[i] + ms[*b].counts[i] + ms[*c].counts[i] >= cap) {
+                    if ms[*a].total() + ms[*b].total() + ms[*c].total() >= cap {
                         continue;
                     }
                     st.bump("probe.algebra_triple");
@@ -940,6 +942,7 @@ impl Scenario for HScenario {
             budget,
             h_edits,
             h_apply,
+            |t: &HTrace| t.ops.len() * 4,
             |t| {
                 let mut st = Stats::default();
                 self.execute(t, &mut st)
